@@ -71,6 +71,72 @@ def recognised_guard(ev, hk, xv, xend):
     return None
 
 
+def r_land_exact(rep, f):
+    """a solver that decides completion by comparing its abscissa with xend must put x ON xend when it clips the last step:
+    `x + (xend - x)` (or x + |xend - x|*direction) is a rounded sum that can land one ulp short; the comparison then fails,
+    no further step is possible and the run reports StepSizeTooSmall although the interval was covered. Solvers that decide
+    completion with a flag set while clipping do not depend on the rounding (R-STATUS-SUCCESS covers them)."""
+    import pnum
+    for mod, ty in SOLVERS:
+        fn = solve_fn(mod, ty)
+        body = f.body(fn)
+        xend = xend_atom(body)
+        key = "R-LAND-EXACT:%s" % fn
+        try:
+            variants = rk.analyse_variants(f, fn)
+        except rk.AnalysisError as e:
+            rep.inconc("R-LAND-EXACT", key, str(e))
+            continue
+        if xend is None:
+            continue
+        guards = set()
+        for tag, sx, hk in variants:
+            for ev, sv in exits_of(sx, hk, body):
+                if not is_success(sv) or ev.get("state") is None:
+                    continue
+                xv = ev["state"].get(hk.xkey)
+                if hk.main_loop is None or not tast.contains(hk.main_loop, lambda z: z is ev["node"]):
+                    continue
+                g = recognised_guard(ev, hk, xv, xend)
+                if g:
+                    guards.add(g)
+        if not guards:
+            rep.ok("R-LAND-EXACT", key, "completion is not decided by comparing a computed abscissa with xend", nontrivial=False)
+            continue
+        model = lambda nm: {"X": 1.0, "xend": 3.0, "x0": 0.0}.get(nm, 0.37 + (sum(map(ord, nm)) % 97) / 1000.0)
+        bad, n_land = None, 0
+        for tag, sx, hk in variants:
+            for s_ in [r for r in hk.solout_calls if r["in_main"]]:
+                x0v = s_["x"]
+                if not isinstance(x0v, Poly):
+                    continue
+                # a joined step variable (phi of the clipped and the unclipped step) is examined alternative by alternative
+                alts = [x0v]
+                for a_ in x0v.atoms():
+                    d_ = DEFS.get(a_)
+                    if d_ and d_[0] == "phi" and d_[1]:
+                        alts = [x0v.subst({a_: inp}) for inp in d_[1] if isinstance(inp, Poly)]
+                        break
+                for xv in alts:
+                    try:
+                        lands = abs(pnum.value(xv, {}, model) - 3.0) < 1e-12
+                    except pnum.NoEval:
+                        continue
+                    if not lands:
+                        continue
+                    n_land += 1
+                    if xv != xend and bad is None:
+                        bad = (tag, xv, s_["node"])
+        if bad:
+            rep.violation("R-LAND-EXACT", key, "the step clipped to end the integration advances x to %r - a rounded sum, not xend itself - while completion is decided by %s: "
+                          "when the sum lands one ulp short of xend the test fails, no further step is possible and the run ends with StepSizeTooSmall instead of Success "
+                          "(path variant %s)" % (bad[1], sorted(guards)[0], bad[0]), bad[2].get("sp") if isinstance(bad[2], dict) else None)
+        elif n_land == 0:
+            rep.inconc("R-LAND-EXACT", key, "completion is decided by %s but no path variant landing on xend was found" % sorted(guards)[0])
+        else:
+            rep.ok("R-LAND-EXACT", key, "completion is decided by %s and the clipped step assigns x = xend exactly (%d landing variant(s))" % (sorted(guards)[0], n_land))
+
+
 def r_status_success(rep, f):
     for mod, ty in SOLVERS:
         fn = solve_fn(mod, ty)
